@@ -173,6 +173,20 @@ C10ReqOk(e, pre, x, r) ==
        /\ NonPayload(req) + 1 + SizeOf(ack.v.szx) <= cfg.M
        /\ ((rb1.v.szx <= 6 /\ NonPayload(req) + 1 + SizeOf(rb1.v.szx) + 32 <= cfg.M) => ack.v.szx = rb1.v.szx)
 
+\* C10 on follow-up blocks served from the cache: "the message carrying a block of that size ... encodes
+\* within the configured maximum message size" holds for every block of the transfer, whatever its
+\* number (the Block2 option grows with it) - pinned whenever the client's size is one the budget admits
+\* for this reply (the reserve of 12 bytes covers the option and the marker)
+\* bsz = the size the handler itself chose when it fragmented the cached response (tracked per key): a
+\* client that keeps to that size (or a smaller one) and to its token length gets blocks that fit, too
+C10FollowOk(e, pre, r, bsz) ==
+  LET req == MsgOf(e.req)
+      b2 == FirstBlock(req, OPT_BLOCK2) IN
+  (e.op = "ireq" /\ b2.some /\ pre.cached.some /\ r.out = OkR(TRUE) /\ r.resp.some /\ b2.v.szx <= 6
+     /\ \/ NonPayload([pre.cached.v EXCEPT !.tok = req.tok]) + BlockOptionsMaxLength + SizeOf(b2.v.szx) <= cfg.M
+        \/ (bsz.some /\ b2.v.szx <= bsz.v /\ Len(req.tok) <= Len(pre.cached.v.tok) /\ InBudgetDomain(NonPayload(pre.cached.v))))
+  => WireLen(r.resp.v) <= cfg.M
+
 \* the client's Block2 preference of this exchange is what intercept_response must honour (C10):
 \* the remembered value is judged here, so that a wrong one is never adopted silently
 HintOk(e, x, r) == (e.op = "ireq" /\ r.hasPost /\ x.out.k = "ok" /\ r.out.k = "ok") => r.post.b2 = x.st.b2
@@ -192,14 +206,14 @@ RetainOk(x, r) ==
      /\ (x.st.upload.some => r.post.upload.some)
      /\ (x.st.cached.some => r.post.cached.some)
 
-Violated(e, pre, x, r) ==
+Violated(e, pre, x, r, bsz) ==
   LET hadResp == IF e.op = "ireq" THEN NewResponse(MsgOf(e.req)).some ELSE e.app.some IN
   (IF C11Ok(e, pre, r, hadResp) THEN {} ELSE {"C11"})
   \cup (IF C12Ok(e, r) THEN {} ELSE {"C12"})
   \cup (IF r.out.k = "panic" \/ (C09Ok(e, pre, x, r) /\ AckKept(e, r)) THEN {} ELSE {"C09"})
   \cup (IF r.out.k = "panic" \/ C08ReqOk(e, pre, x, r) THEN {} ELSE {"C08"})
   \cup (IF r.out.k = "panic" \/ RespOk(e, pre, x, r) THEN {} ELSE {"C08", "C10"})
-  \cup (IF r.out.k = "panic" \/ C10ReqOk(e, pre, x, r) THEN {} ELSE {"C10"})
+  \cup (IF r.out.k = "panic" \/ (C10ReqOk(e, pre, x, r) /\ C10FollowOk(e, pre, r, bsz)) THEN {} ELSE {"C10"})
   \cup (IF HintOk(e, x, r) THEN {} ELSE {"C08", "C10"})
   \cup (IF RetainOk(x, r) THEN {} ELSE {"C20"})
 
@@ -226,10 +240,16 @@ NewDone1(e, x) ==
            rb1 == FirstBlock(req, OPT_BLOCK1) IN
        IF rb1.some /\ ~rb1.v.more /\ x.out = OkR(FALSE) THEN Some(FinalMarker(req)) ELSE None
 
+Bsz(k) == IF k \in DOMAIN cache THEN cache[k].bsz ELSE None
+\* the size exponent of the Block2 option on a reply intercept_response has just fragmented
+NewBsz(k, e) ==
+  IF e.op = "iresp" /\ e.resp.some
+  THEN LET rb == FirstBlock(MsgOf(e.resp.v), OPT_BLOCK2) IN IF rb.some /\ rb.v.more THEN Some(rb.v.szx) ELSE Bsz(k)
+  ELSE Bsz(k)
 Touch(k, entry, e, d1) ==
   LET keep == { q \in DOMAIN cache : ~CertainlyExpired(cache[q], e) } IN
   [q \in keep \cup { k } |->
-     IF q = k THEN [e |-> entry, t0 |-> e.t0, t1 |-> e.t1,
+     IF q = k THEN [e |-> entry, t0 |-> e.t0, t1 |-> e.t1, bsz |-> NewBsz(k, e),
                     done1 |-> IF e.op = "ireq" THEN d1
                               ELSE IF k \in DOMAIN cache THEN cache[k].done1 ELSE None]
      ELSE cache[q]]
@@ -246,8 +266,8 @@ StepCall(e) ==
       exact == { p \in pres : Exact(Expected(e, p), r) } IN
   \* equality with the code-shaped operators only tracks the state; the predicates the
   \* properties pin are evaluated on every call and decide
-  IF exact # {} /\ (\E p \in exact : Violated(e, p, Expected(e, p), r) = {})
-  THEN LET p == CHOOSE p \in exact : Violated(e, p, Expected(e, p), r) = {}
+  IF exact # {} /\ (\E p \in exact : Violated(e, p, Expected(e, p), r, Bsz(k)) = {})
+  THEN LET p == CHOOSE p \in exact : Violated(e, p, Expected(e, p), r, Bsz(k)) = {}
            x == Expected(e, p) IN
        /\ cache' = Touch(k, x.st, e, NewDone1(e, x))
        /\ UNCHANGED << drift, live >>
@@ -266,9 +286,9 @@ StepCall(e) ==
   ELSE LET wrong == { p \in WrongLiveness(k, e) \ pres : Exact(Expected(e, p), r) }
            p == CHOOSE p \in pres : TRUE
            x == Expected(e, p)
-           v == UNION { Violated(e, q, Expected(e, q), r) : q \in pres }
+           v == UNION { Violated(e, q, Expected(e, q), r, Bsz(k)) : q \in pres }
            \* a call that also disturbed another key's entry is reported under C12 as well
-           vAll == (IF \E q \in pres : Violated(e, q, Expected(e, q), r) = {} THEN {} ELSE v)
+           vAll == (IF \E q \in pres : Violated(e, q, Expected(e, q), r, Bsz(k)) = {} THEN {} ELSE v)
                    \cup (IF OthersOk(e, k) THEN {} ELSE {"C12"}) IN
        /\ kfs' = kfs /\ UNCHANGED kftotal
        /\ IF wrong # {}
